@@ -27,9 +27,14 @@ type cliIoArg struct {
 	Dash bool     `json:"dash"`
 }
 
-type cliBlock struct {
+type cliAlt struct {
 	Q       int   `json:"q"`
 	Prelude []int `json:"prelude"`
+}
+
+// one block of standard output: every (statement, lets in scope) whose SQL it is
+type cliBlock struct {
+	Alts []cliAlt `json:"alts"`
 }
 
 type cliObs struct {
@@ -63,6 +68,11 @@ func symsText(syms []cliSym, stmts []string, halves [][2]string) string {
 // for every choice of earlier accepted lets
 func cliCandidates(script, stmts []string) map[string]cliBlock {
 	out := map[string]cliBlock{}
+	add := func(sql string, a cliAlt) {
+		b := out[sql]
+		b.Alts = append(b.Alts, a)
+		out[sql] = b
+	}
 	for q, k := range script {
 		if k != "QOk" {
 			continue
@@ -88,9 +98,7 @@ func cliCandidates(script, stmts []string) map[string]cliBlock {
 			if err != nil {
 				continue
 			}
-			if _, dup := out[sql]; !dup {
-				out[sql] = cliBlock{Q: q + 1, Prelude: pre}
-			}
+			add(sql, cliAlt{Q: q + 1, Prelude: pre})
 		}
 	}
 	return out
@@ -102,17 +110,38 @@ func cliBlocksOf(stdout string, cands map[string]cliBlock) []cliBlock {
 	for rest != "" {
 		i := strings.Index(rest, "\n\n")
 		if i < 0 {
-			blocks = append(blocks, cliBlock{Q: 0, Prelude: []int{}})
+			blocks = append(blocks, cliBlock{Alts: []cliAlt{}})
 			break
 		}
 		if b, ok := cands[rest[:i]]; ok {
 			blocks = append(blocks, b)
 		} else {
-			blocks = append(blocks, cliBlock{Q: 0, Prelude: []int{}})
+			blocks = append(blocks, cliBlock{Alts: []cliAlt{}})
 		}
 		rest = rest[i+2:]
 	}
 	return blocks
+}
+
+// blocksMatch: every block of the model (one alternative each) is among the alternatives of the observed block.
+func blocksMatch(obs, model []cliBlock) bool {
+	if len(obs) != len(model) {
+		return false
+	}
+	for i := range model {
+		ok := false
+		for _, a := range obs[i].Alts {
+			for _, m := range model[i].Alts {
+				if reflect.DeepEqual(a, m) || (a.Q == m.Q && len(a.Prelude) == 0 && len(m.Prelude) == 0) {
+					ok = true
+				}
+			}
+		}
+		if !ok {
+			return false
+		}
+	}
+	return true
 }
 
 func runCliIo(bin, dir string, id int, run *cliIoRun) (cliObs, cliRun) {
@@ -242,8 +271,7 @@ func cmdCliIoReplay(a args) {
 				return
 			}
 			if obs.Exit != c.Model.Exit || obs.ErrLines < c.Model.ErrLines || // an error message may have several lines
-				 len(obs.Blocks) != len(c.Model.Blocks) ||
-				(len(obs.Blocks) > 0 && !reflect.DeepEqual(obs.Blocks, c.Model.Blocks)) {
+				!blocksMatch(obs.Blocks, c.Model.Blocks) {
 				res.Drift++
 				if len(res.DriftSample) < 5 {
 					res.DriftSample = append(res.DriftSample, map[string]any{"io": c.Io, "script": c.Script, "model": c.Model, "observed": obs})
